@@ -584,6 +584,65 @@ def _decode_cases(world, cls, name, unsigned, depth=0):
 
     body = [s for s in fn.body if not (isinstance(s, ast.Expr) and isinstance(
         s.value, ast.Constant))]
+    # `x = A(raw); try: v = B(x) / except E: return H / else: return v`
+    # (or `return v` after the try) is `try: return B(A(raw)) / except E:
+    # return H`: locals bound once before the try written out, the value
+    # returned where it is computed
+    pre_env = {}
+    k_ = 0
+    while k_ < len(body) and isinstance(body[k_], ast.Assign) and len(
+            body[k_].targets) == 1 and isinstance(
+                body[k_].targets[0], ast.Name) and not any(
+                    isinstance(n_, (ast.Yield, ast.Await, ast.NamedExpr))
+                    for n_ in ast.walk(body[k_].value)):
+        pre_env[body[k_].targets[0].id] = body[k_].value
+        k_ += 1
+    rest_ = body[k_:]
+    if pre_env and rest_ and isinstance(rest_[0], ast.Try) and len(
+            rest_) <= 2 and not rest_[0].finalbody:
+        t0 = rest_[0]
+        val = None
+        if len(t0.body) == 1 and isinstance(t0.body[0], ast.Return) and \
+                len(rest_) == 1 and not t0.orelse:
+            val = t0.body[0].value
+        elif len(t0.body) == 1 and isinstance(t0.body[0], ast.Assign) and \
+                len(t0.body[0].targets) == 1 and isinstance(
+                    t0.body[0].targets[0], ast.Name):
+            v_ = t0.body[0].targets[0].id
+            tail = list(t0.orelse) + rest_[1:]
+            if len(tail) == 1 and isinstance(tail[0], ast.Return) and \
+                    isinstance(tail[0].value, ast.Name) and \
+                    tail[0].value.id == v_:
+                val = t0.body[0].value
+        if val is not None:
+            class _S(ast.NodeTransformer):
+                def visit_Name(self, n_):
+                    if isinstance(n_.ctx, ast.Load) and n_.id in pre_env:
+                        return self.visit(acopy(pre_env[n_.id]))
+                    return n_
+            t1 = acopy(t0)
+            t1.body = [ast.copy_location(ast.Return(_S().visit(acopy(val))),
+                                         t0.body[0])]
+            t1.orelse = []
+            ast.fix_missing_locations(t1)
+            body = [t1]
+    elif not pre_env and len(body) in (1, 2) and isinstance(
+            body[0], ast.Try) and not body[0].finalbody and len(
+                body[0].body) == 1 and isinstance(
+                    body[0].body[0], ast.Assign) and len(
+                        body[0].body[0].targets) == 1 and isinstance(
+                            body[0].body[0].targets[0], ast.Name):
+        t0 = body[0]
+        v_ = t0.body[0].targets[0].id
+        tail = list(t0.orelse) + body[1:]
+        if len(tail) == 1 and isinstance(tail[0], ast.Return) and isinstance(
+                tail[0].value, ast.Name) and tail[0].value.id == v_:
+            t1 = acopy(t0)
+            t1.body = [ast.copy_location(ast.Return(acopy(
+                t0.body[0].value)), t0.body[0])]
+            t1.orelse = []
+            ast.fix_missing_locations(t1)
+            body = [t1]
     if len(body) == 1 and isinstance(body[0], ast.Try) and \
             not body[0].finalbody and not body[0].orelse:
         t = body[0]
@@ -798,7 +857,10 @@ def _check_from_list_order(run, repo, world):
     mod = repo.mod(LOC)
     for m in ("read_raw", "from_list"):
         fn = mv.methods[m][1]
-        loops = [n for n in ast.walk(fn) if isinstance(n, ast.For)]
+        # a for loop or the generator of a comprehension
+        loops = [n for n in ast.walk(fn) if isinstance(n, ast.For)] + [
+            g for n in ast.walk(fn) if isinstance(
+                n, (ast.ListComp, ast.GeneratorExp)) for g in n.generators]
         run.ob("R-DECODE", "%s.MemoryValue.%s#location-order" % (LOC, m),
                len(loops) == 1 and _over_locations(loops[0].iter),
                "%s must assemble the bytes in cls.locations order" % m,
@@ -839,6 +901,10 @@ def _check_registration_guards(run, repo, world):
               "self.has_lock == False"}
         if set(parts) & known and set(parts) & lk and len(parts) == 2:
             okl = True
+        elif not (set(parts) & known) and any(
+                "locations[" in p_ and "NVM_RW_L" in p_ for p_ in parts):
+            # one fixed location tested instead of each of them
+            okl = False
         elif not (set(parts) & known):
             raise AnalysisError("MemoryBank._add_memory_value: lock guard "
                                 "`%s` not in a recognisable form"
